@@ -560,3 +560,98 @@ func ruleAtomZeroIsAnAtom(c *Ctx, r *Report) {
 		r.ok(rule, "scan/operator.name", "-", desc, fmt.Sprintf("%d comparisons of operator.name with a constant examined; none with 0", n), false)
 	}
 }
+
+// ---------------------------------------------------------------------------
+// R-POSTFIX-SENTINEL (C06; added after seed C06g): the reader tells a postfix operator from an infix one by the
+// right binding priority that operator.bindingPriorities reports: "no operand on this side" is a sentinel above
+// every real priority. Real priorities go up to 1200 (an xfy operator declared at 1200 binds 1200 to its right), so
+// (1) every test that compares a binding priority with a constant to classify the operator puts the line at 1200
+// or above - `rbp > T` with T >= 1200 - and (2) the sentinel lies above that line. With the line at 1199 the term
+// a ==> b, written by writeq under op(1200, xfy, ==>), is refused by read_term under the same table.
+func rulePostfixSentinel(c *Ctx, r *Report) {
+	const rule = "R-POSTFIX-SENTINEL"
+	const maxPriority = 1200 // ISO 6.3.4: priorities range over 1..1200
+	desc := "the sentinel for `no operand on this side` and the tests that look for it lie above every real priority"
+	bp := c.method("operator", "bindingPriorities")
+	if bp == nil {
+		r.undecided(rule, "anchor:operator.bindingPriorities", "-", desc, "not found")
+		return
+	}
+	sentinels := map[int64]bool{}
+	eachInstr(bp, func(in ssa.Instruction) {
+		st, ok := in.(*ssa.Store)
+		if !ok {
+			return
+		}
+		if k, ok := constInt(st.Val); ok && k > 1 && isEngNamed(st.Val.Type(), "Integer") {
+			sentinels[k] = true
+		}
+	})
+	if len(sentinels) == 0 {
+		r.undecided(rule, fname(bp)+"/sentinel", c.Pos(bp.Pos()), desc, "no constant binding priority is stored in bindingPriorities")
+		return
+	}
+	minSentinel := int64(0)
+	for k := range sentinels {
+		if minSentinel == 0 || k < minSentinel {
+			minSentinel = k
+		}
+	}
+	if minSentinel > maxPriority {
+		r.ok(rule, fname(bp)+"/sentinel", c.Pos(bp.Pos()), desc, fmt.Sprintf("sentinel %d > %d", minSentinel, maxPriority), true)
+	} else {
+		r.bad(rule, fname(bp)+"/sentinel", c.Pos(bp.Pos()), desc, fmt.Sprintf("the sentinel %d is a priority a real operator can have: an operator declared at %d is taken for one without an operand on that side", minSentinel, maxPriority))
+	}
+	n := 0
+	for _, fn := range c.LibFuncs() {
+		if funcPkg(fn) != c.Engine {
+			continue
+		}
+		k := 0
+		eachInstr(fn, func(in ssa.Instruction) {
+			bo, ok := in.(*ssa.BinOp)
+			if !ok {
+				return
+			}
+			x, op, kv, ok := cmpConst(bo)
+			if !ok {
+				return
+			}
+			e, isE := x.(*ssa.Extract)
+			if !isE {
+				return
+			}
+			call, isCall := e.Tuple.(*ssa.Call)
+			if !isCall || call.Call.StaticCallee() != bp {
+				return
+			}
+			// normalise to: "sentinel side" is x > T
+			var t int64
+			switch op {
+			case token.GTR, token.LEQ:
+				t = kv
+			case token.GEQ, token.LSS:
+				t = kv - 1
+			case token.EQL, token.NEQ:
+				t = kv - 1
+			default:
+				return
+			}
+			n++
+			k++
+			key := fmt.Sprintf("%s/classify#%d", fname(fn), k)
+			switch {
+			case t < maxPriority:
+				r.bad(rule, key, c.at(in), desc, fmt.Sprintf("the test separates at %d: a real binding priority of %d (xfy or yfx at %d) falls on the sentinel's side, so text the writer produces for such an operator is not read back", t, maxPriority, maxPriority))
+			case minSentinel <= t:
+				r.bad(rule, key, c.at(in), desc, fmt.Sprintf("the sentinel %d does not pass the test (line at %d): an operator without an operand on that side is never recognised", minSentinel, t))
+			default:
+				r.ok(rule, key, c.at(in), desc, fmt.Sprintf("line at %d: %d <= %d < sentinel %d", t, maxPriority, t, minSentinel), true)
+			}
+		})
+	}
+	if n == 0 {
+		r.undecided(rule, "scan/classify", "-", desc, "no test of a binding priority against a constant found")
+	}
+	r.analysed(rule, fmt.Sprintf("%s, %d classification tests", fname(bp), n))
+}
